@@ -6,6 +6,7 @@ CHECK = {
     "level_note": "Trusts encoding/json as the meaning of a JSON text, the harness serialiser (self-checked: every undecorated text must be accepted by encoding/json) and Go's runtime; depth<=5, width<=5, strings<=~1 KiB except the large part, documents<=256 KiB. Violation signatures are scoped by what the input contained (:escaped-quote, :region>64K) so that a failure on an input with neither feature has its own signature.",
     "parts": [
         {"name": "longescapes", "pkg": "verifharness/prop/c17", "run": "^TestVerif_C17_LongEscapes$", "timeout": {"quick": 600, "thorough": 3600}},
+        {"name": "longruns", "pkg": "verifharness/prop/c17", "run": "^TestVerif_C17_LongRuns$", "timeout": {"quick": 600, "thorough": 3600}},
         {"name": "documents", "pkg": "verifharness/prop/c17", "run": "^TestVerif_C17_Documents$",
          "timeout": {"quick": 600, "thorough": 3600}},
         {"name": "large", "pkg": "verifharness/prop/c17", "run": "^TestVerif_C17_Large$",
